@@ -142,3 +142,178 @@ pub fn vsock_totals() -> (usize, usize) {
 pub fn vsock_lifecycle() -> Vec<(std::time::Instant, bool, SocketAddr, u16)> {
     GAUGES.with(|t| t.borrow().lifecycle.clone())
 }
+
+// ---- controlled scheduling of the locks shared between a connection and its stream halves ----
+
+/// Drop-in replacements for the `parking_lot` locks that the stream halves (user tasks) and the
+/// connection (dispatcher task) share. Without a hook installed on the current thread they are the
+/// plain locks. With one, every acquisition is announced beforehand (`before`, which may block the
+/// thread for as long as a controlling scheduler wants), and acquisitions / releases are reported,
+/// so that a model checker can run real threads through every interleaving of their critical
+/// sections.
+pub mod sync {
+    use std::{
+        cell::RefCell,
+        ops::{Deref, DerefMut},
+        sync::Arc,
+    };
+
+    pub trait SchedHook: Send + Sync {
+        /// The current thread is about to acquire `lock` (exclusively or shared).
+        fn before(&self, lock: usize, exclusive: bool);
+        fn acquired(&self, lock: usize, exclusive: bool);
+        fn released(&self, lock: usize, exclusive: bool);
+    }
+
+    thread_local! {
+        static HOOK: RefCell<Option<Arc<dyn SchedHook>>> = const { RefCell::new(None) };
+    }
+
+    /// Installs (or removes) the hook of the current thread.
+    pub fn set_thread_hook(h: Option<Arc<dyn SchedHook>>) {
+        HOOK.with(|c| *c.borrow_mut() = h);
+    }
+
+    fn hook() -> Option<Arc<dyn SchedHook>> {
+        HOOK.with(|c| c.borrow().clone())
+    }
+
+    pub struct Mutex<T>(parking_lot::Mutex<T>);
+
+    pub struct MutexGuard<'a, T> {
+        g: Option<parking_lot::MutexGuard<'a, T>>,
+        hook: Option<(Arc<dyn SchedHook>, usize)>,
+    }
+
+    impl<T> Mutex<T> {
+        pub fn new(t: T) -> Self {
+            Mutex(parking_lot::Mutex::new(t))
+        }
+
+        pub fn lock(&self) -> MutexGuard<'_, T> {
+            let id = self as *const _ as usize;
+            let h = hook();
+            if let Some(h) = &h {
+                h.before(id, true);
+            }
+            let g = self.0.lock();
+            if let Some(h) = &h {
+                h.acquired(id, true);
+            }
+            MutexGuard {
+                g: Some(g),
+                hook: h.map(|h| (h, id)),
+            }
+        }
+    }
+
+    impl<T> Deref for MutexGuard<'_, T> {
+        type Target = T;
+        fn deref(&self) -> &T {
+            self.g.as_ref().unwrap()
+        }
+    }
+
+    impl<T> DerefMut for MutexGuard<'_, T> {
+        fn deref_mut(&mut self) -> &mut T {
+            self.g.as_mut().unwrap()
+        }
+    }
+
+    impl<T> Drop for MutexGuard<'_, T> {
+        fn drop(&mut self) {
+            self.g.take();
+            if let Some((h, id)) = self.hook.take() {
+                h.released(id, true);
+            }
+        }
+    }
+
+    pub struct RwLock<T>(parking_lot::RwLock<T>);
+
+    pub struct RwLockReadGuard<'a, T> {
+        g: Option<parking_lot::RwLockReadGuard<'a, T>>,
+        hook: Option<(Arc<dyn SchedHook>, usize)>,
+    }
+
+    pub struct RwLockWriteGuard<'a, T> {
+        g: Option<parking_lot::RwLockWriteGuard<'a, T>>,
+        hook: Option<(Arc<dyn SchedHook>, usize)>,
+    }
+
+    impl<T> RwLock<T> {
+        pub fn new(t: T) -> Self {
+            RwLock(parking_lot::RwLock::new(t))
+        }
+
+        pub fn read(&self) -> RwLockReadGuard<'_, T> {
+            let id = self as *const _ as usize;
+            let h = hook();
+            if let Some(h) = &h {
+                h.before(id, false);
+            }
+            let g = self.0.read();
+            if let Some(h) = &h {
+                h.acquired(id, false);
+            }
+            RwLockReadGuard {
+                g: Some(g),
+                hook: h.map(|h| (h, id)),
+            }
+        }
+
+        pub fn write(&self) -> RwLockWriteGuard<'_, T> {
+            let id = self as *const _ as usize;
+            let h = hook();
+            if let Some(h) = &h {
+                h.before(id, true);
+            }
+            let g = self.0.write();
+            if let Some(h) = &h {
+                h.acquired(id, true);
+            }
+            RwLockWriteGuard {
+                g: Some(g),
+                hook: h.map(|h| (h, id)),
+            }
+        }
+    }
+
+    impl<T> Deref for RwLockReadGuard<'_, T> {
+        type Target = T;
+        fn deref(&self) -> &T {
+            self.g.as_ref().unwrap()
+        }
+    }
+
+    impl<T> Drop for RwLockReadGuard<'_, T> {
+        fn drop(&mut self) {
+            self.g.take();
+            if let Some((h, id)) = self.hook.take() {
+                h.released(id, false);
+            }
+        }
+    }
+
+    impl<T> Deref for RwLockWriteGuard<'_, T> {
+        type Target = T;
+        fn deref(&self) -> &T {
+            self.g.as_ref().unwrap()
+        }
+    }
+
+    impl<T> DerefMut for RwLockWriteGuard<'_, T> {
+        fn deref_mut(&mut self) -> &mut T {
+            self.g.as_mut().unwrap()
+        }
+    }
+
+    impl<T> Drop for RwLockWriteGuard<'_, T> {
+        fn drop(&mut self) {
+            self.g.take();
+            if let Some((h, id)) = self.hook.take() {
+                h.released(id, true);
+            }
+        }
+    }
+}
